@@ -3,8 +3,9 @@
    (parser/mask.rs `convert`, parser/clippath.rs `convert`), and the converter skeleton of Model/Converter.v instantiated
    with them.  Executable definitions only.
 
-   Not modelled: a mask / clipPath that itself links another one (MS_Linked / CS_Linked are positions only), the
-   recursion check (no recursive links in the model), checked_bbox_transform failing for a non-empty bbox. *)
+   A mask / clipPath that links another one resolves it at MS_Linked / CS_Linked (fuel-bounded recursion over the document's
+   definitions; the source's parent_defs recursion check is not modelled: the model's documents have no cycles).
+   Not modelled: checked_bbox_transform failing for a non-empty bbox. *)
 From Coq Require Import String Ascii.
 From RV Require Import Model.Base Model.ConvBase Gen.ConvTables Model.Converter.
 Local Open Scope string_scope.
@@ -46,6 +47,16 @@ Section Res.
   Record renv := { re_cache : cache; re_id : string; re_all : bool }.
   Definition re_ret (x : renv) (r : option string) : renv + (option string * cache) := inr (r, re_cache x).
 
+  (* resolution of the element a definition links *)
+  Variable linked : string -> cache -> option string * cache.
+  Definition run_linked (d : def_info) (x : renv) : renv + (option string * cache) :=
+    match d_link d with
+    | None => inl x
+    | Some l => match linked l (re_cache x) with
+                | (None, c') => inr (None, c')
+                | (Some _, c') => inl {| re_cache := c'; re_id := re_id x; re_all := re_all x |}
+                end
+    end.
   (* mask::convert *)
   Definition mask_step_run (d : def_info) (bbox : option qrect) (s : mask_step) (x : renv) : renv + (option string * cache) :=
     let c := re_cache x in
@@ -67,7 +78,7 @@ Section Res.
         else inl {| re_cache := c; re_id := d_id d; re_all := re_all x |}
     | MS_MaskAllInsert =>
         if re_all x then inr (Some (re_id x), c_set_masks c (c_mask c) (re_id x :: c_masks c)) else inl x
-    | MS_Linked => inl x
+    | MS_Linked => run_linked d x
     | MS_ContentUnitsBBox => if d_content_obb d then match bbox with Some _ => inl x | None => re_ret x None end else inl x
     | MS_Children =>
         let '(c', has) := d_content d c in
@@ -83,7 +94,7 @@ Section Res.
     | CS_Transform => if d_geom_ok d then inl x else re_ret x None
     | CS_CacheLookup => if d_cacheable d && str_in (d_id d) (c_clips c) then re_ret x (Some (d_id d)) else inl x
     | CS_UnitsBBox => if d_units_obb d then match bbox with Some _ => inl x | None => re_ret x None end else inl x
-    | CS_Linked => inl x
+    | CS_Linked => run_linked d x
     | CS_GenId =>
         if String.eqb (d_id d) "" then re_ret x None else
         if negb (d_cacheable d) && str_in (d_id d) (c_clips c) then
@@ -102,24 +113,46 @@ Section Res.
     | [] => (None, re_cache x)
     | s :: r => match run s x with inl x' => steps_run run r x' | inr res => res end
     end.
-  Definition mask_convert (d : def_info) (bbox : option qrect) (c : cache) : option string * cache :=
+  Definition mask_once (d : def_info) (bbox : option qrect) (c : cache) : option string * cache :=
     steps_run (mask_step_run d bbox) mask_steps {| re_cache := c; re_id := ""; re_all := false |}.
-  Definition clip_convert (d : def_info) (bbox : option qrect) (c : cache) : option string * cache :=
+  Definition clip_once (d : def_info) (bbox : option qrect) (c : cache) : option string * cache :=
     steps_run (clip_step_run d bbox) clip_steps {| re_cache := c; re_id := ""; re_all := false |}.
+End Res.
 
+Section Res2.
+  Variable fmt : N -> string.
   (* the definitions of a document: id -> what the resolvers read *)
   Definition defs_t := list (string * def_info).
   Fixpoint def_lookup (l : defs_t) (s : string) : option def_info :=
     match l with [] => None | (k, d) :: r => if String.eqb s k then Some d else def_lookup r s end.
+  Fixpoint mask_convert_in (fuel : nat) (masks : defs_t) (d : def_info) (bbox : option qrect) (c : cache) : option string * cache :=
+    match fuel with
+    | O => (None, c)
+    | S k => mask_once fmt (fun l c' => match def_lookup masks l with Some d' => mask_convert_in k masks d' bbox c' | None => (None, c') end) d bbox c
+    end.
+  Fixpoint clip_convert_in (fuel : nat) (clips : defs_t) (d : def_info) (bbox : option qrect) (c : cache) : option string * cache :=
+    match fuel with
+    | O => (None, c)
+    | S k => clip_once fmt (fun l c' => match def_lookup clips l with Some d' => clip_convert_in k clips d' bbox c' | None => (None, c') end) d bbox c
+    end.
+  (* a definition without a link *)
+  Definition mask_convert (d : def_info) (bbox : option qrect) (c : cache) : option string * cache := mask_once fmt (fun _ c' => (None, c')) d bbox c.
+  Definition clip_convert (d : def_info) (bbox : option qrect) (c : cache) : option string * cache := clip_once fmt (fun _ c' => (None, c')) d bbox c.
   Definition res_mask_m {state : Type} (masks : defs_t) (link : string) (_ : state) (bbox : option qrect) (c : cache) : option string * cache :=
-    match def_lookup masks link with Some d => mask_convert d bbox c | None => (None, c) end.
+    match def_lookup masks link with Some d => mask_convert_in (S (length masks)) masks d bbox c | None => (None, c) end.
   Definition res_clip_m {state : Type} (clips : defs_t) (link : string) (_ : state) (bbox : option qrect) (c : cache) : option string * cache :=
-    match def_lookup clips link with Some d => clip_convert d bbox c | None => (None, c) end.
+    match def_lookup clips link with Some d => clip_convert_in (S (length clips)) clips d bbox c | None => (None, c) end.
 
-  (* the skeleton with these resolvers; a group has an object bounding box iff it has children (true for the shapes of the
-     correspondence documents: none is degenerate) *)
+  (* the skeleton with these resolvers; a group has an object bounding box iff its subtree contains a leaf (Group::
+     calculate_object_bbox skips empty groups; a content-less group kept for its filter contributes a zero rectangle, which is
+     no NonZeroRect).  Valid for non-degenerate shapes. *)
   Definition unit_rect : qrect := {| rx := 0; ry := 0; rw := 1; rh := 1 |}.
-  Definition simc_bbox (g : ogroup) : option qrect := match og_ch g with [] => None | _ => Some unit_rect end.
+  Fixpoint onode_has_geom (n : onode) : bool :=
+    match n with
+    | OLeaf _ _ => true
+    | OGroup _ _ ch => (fix go (l : list onode) : bool := match l with [] => false | x :: r => onode_has_geom x || go r end) ch
+    end.
+  Definition simc_bbox (g : ogroup) : option qrect := if existsb onode_has_geom (og_ch g) then Some unit_rect else None.
   Definition simc_children (clips masks : defs_t) : nodes -> bool -> bool -> sim_state -> cache -> ogroup -> cache * ogroup :=
     conv_children sim_state ss_in_clip (fun _ => true) sim_path sim_image sim_text
               (fun _ _ _ _ _ c g => (c, g)) (fun _ cb st c g => cb st c g)
@@ -128,7 +161,7 @@ Section Res.
     conv_elem sim_state ss_in_clip (fun _ => true) sim_path sim_image sim_text
               (fun _ _ _ _ _ c g => (c, g)) (fun _ cb st c g => cb st c g)
               simc_bbox (res_clip_m clips) (res_mask_m masks) sim_filter.
-End Res.
+End Res2.
 
 (* counters below ten are enough for the correspondence documents and the witnesses *)
 Definition fmt9 (n : N) : string :=
@@ -138,14 +171,18 @@ Definition fmt9 (n : N) : string :=
 Definition plain_content (c : cache) : cache * bool := (c, true).
 (* <mask id=..> (objectBoundingBox units, the default) / <mask maskUnits="userSpaceOnUse"> with a plain shape inside *)
 Definition mask_obb (id : string) : def_info :=
-  {| d_tag_ok := true; d_id := id; d_units_obb := true; d_content_obb := false; d_cacheable := false; d_geom_ok := true; d_content := plain_content |}.
+  {| d_tag_ok := true; d_id := id; d_units_obb := true; d_content_obb := false; d_cacheable := false; d_geom_ok := true; d_link := None; d_content := plain_content |}.
 Definition mask_usou (id : string) : def_info :=
-  {| d_tag_ok := true; d_id := id; d_units_obb := false; d_content_obb := false; d_cacheable := true; d_geom_ok := true; d_content := plain_content |}.
+  {| d_tag_ok := true; d_id := id; d_units_obb := false; d_content_obb := false; d_cacheable := true; d_geom_ok := true; d_link := None; d_content := plain_content |}.
 Definition mask_cobb (id : string) : def_info :=
-  {| d_tag_ok := true; d_id := id; d_units_obb := true; d_content_obb := true; d_cacheable := false; d_geom_ok := true; d_content := plain_content |}.
+  {| d_tag_ok := true; d_id := id; d_units_obb := true; d_content_obb := true; d_cacheable := false; d_geom_ok := true; d_link := None; d_content := plain_content |}.
 Definition clip_obb (id : string) : def_info :=
-  {| d_tag_ok := true; d_id := id; d_units_obb := true; d_content_obb := false; d_cacheable := false; d_geom_ok := true; d_content := plain_content |}.
+  {| d_tag_ok := true; d_id := id; d_units_obb := true; d_content_obb := false; d_cacheable := false; d_geom_ok := true; d_link := None; d_content := plain_content |}.
 Definition clip_usou (id : string) : def_info :=
-  {| d_tag_ok := true; d_id := id; d_units_obb := false; d_content_obb := false; d_cacheable := true; d_geom_ok := true; d_content := plain_content |}.
+  {| d_tag_ok := true; d_id := id; d_units_obb := false; d_content_obb := false; d_cacheable := true; d_geom_ok := true; d_link := None; d_content := plain_content |}.
 Definition not_a_def (id : string) : def_info :=
-  {| d_tag_ok := false; d_id := id; d_units_obb := false; d_content_obb := false; d_cacheable := true; d_geom_ok := true; d_content := plain_content |}.
+  {| d_tag_ok := false; d_id := id; d_units_obb := false; d_content_obb := false; d_cacheable := true; d_geom_ok := true; d_link := None; d_content := plain_content |}.
+(* a definition that links another one: <mask id=.. mask="url(#l)"> / <clipPath id=.. clip-path="url(#l)"> *)
+Definition with_link (d : def_info) (l : string) (cacheable : bool) : def_info :=
+  {| d_tag_ok := d_tag_ok d; d_id := d_id d; d_units_obb := d_units_obb d; d_content_obb := d_content_obb d; d_cacheable := cacheable;
+     d_geom_ok := d_geom_ok d; d_link := Some l; d_content := d_content d |}.
